@@ -318,6 +318,9 @@ func c14Wrappers(c *Ctx) {
 					holder = f
 					return true, false
 				case *ssa.Parameter:
+					if wrapGuarded(f, at, v) {
+						return true, true // the helper itself tests what it was handed
+					}
 					if d > 3 {
 						return false, true
 					}
